@@ -104,7 +104,9 @@ def run_batch(pid, tier, base, indices, nworkers, timeout, want_plan_upto=4, dea
                     continue
                 cmd = {"cmd": "run", "profile": pid, "tier": tier, "index": i, "seed": env.run_seed(base, i, pid),
                        "want_plan": i < want_plan_upto}
+                t_run = time.time()
                 r = worker.call(cmd, timeout)
+                r["wall_s"] = round(time.time() - t_run, 2)
                 with lock:
                     results[i] = r
         finally:
@@ -271,6 +273,8 @@ def main(argv=None):
         if not ok and exit_code == 0:
             print("HARNESS-ERROR evidence file failed validation")
             exit_code = 2
+    slow = sorted(((r.get("wall_s", 0.0), i) for i, r in results.items()), reverse=True)[:3]
+    print("[simlab] slowest runs (s, index): " + ", ".join(f"{a:.1f}@{b}" for a, b in slow), flush=True)
     print(f"[simlab] property={pid} runs={len(results)} steps={nsteps} evaluations={evaluations} violations={len(viols)} "
           f"known={len(known_lines)} errors={len(errors)} nondet={len(nondet)}/{len(sample)} wall={wall:.1f}s exit={exit_code}", flush=True)
     return exit_code
